@@ -44,7 +44,7 @@ func (c12) Components() map[string]string {
 }
 func (c12) Budget(tier string) int {
 	if tier == "thorough" {
-		return 1500000
+		return 5000000
 	}
 	return 30000
 }
@@ -555,6 +555,9 @@ func (p c12) Run(sc *Scenario) *Result {
 		for _, it := range x.iters[o] {
 			it.Done()
 		}
+	}
+	for o := 0; o < 2; o++ {
+		res.Mix(fmt.Sprint(x.snapshot(x.objs[o])))
 	}
 	if x.mutations >= 3 && x.chainShared {
 		res.Nontrivial = true
